@@ -9,12 +9,20 @@ TRUSTED = [
     "curve constants (p, a, d, G, r, h) are read from the running library (context line ed_param); the driver evaluates generator on curve, "
     "r*G = O, G != O, h = 8 and the orders of the 2-, 4- and 8-torsion points it computes itself; primality of p and r is NOT established "
     "here (ed25519: well-known; not in the C18 tables, which cover the prime-curve parameter files)",
-    "class C (compared with the specification on the presented lines only): ed_mul_fix_combd, ed_mul_sim_lot, ed_blind, ed_on_curve, "
+    "class A since the C17 extension: ed_mul_pre_combd + ed_mul_fix_combd (model mulFixCombd: the table and loop models tabCombd / mulCombd "
+    "shared with ep_mul_*_combd, constants dd = ceil(bits(r)/RLC_DEPTH), e = ceil(dd/2), scalar reduced modulo r; theorem mul_fix_combd: total, "
+    "k*P for every integer k and depth >= 1) and ed_mul_sim_lot (model simLot: binary NAFs of the unreduced scalars at capacity max bits + 1, "
+    "points negated for negative scalars, interleaved loop simLotNaf; theorem mul_sim_lot: total, sum k_i*P_i for every list of pairs); the "
+    "models run over the affine group law of the specification, the C loops over the translated add/dbl formulas (linked by the formula theorems)",
+    "class C (compared with the specification on the presented lines only): ed_blind, ed_on_curve, "
     "ed_size_bin, ed_curve_get_gen, hashing to the curve (ed_map, ed_map_dst: the specification is the plain RFC 9380 construction — "
     "expand_message_xmd, Elligator 2, birational map, cofactor clearing — and the result is also required to satisfy r*P = O; the optimised "
     "straight-line code of ed_map_ell2_5mod8 is not modelled), fp_srt / fp_inv / fp_exp (C02)",
-    "modelled and compared, without a theorem of their own: ed_is_infty (hand-written predicate), the dispatch of ed_mul_gen / ed_mul_sim_gen "
-    "(incl. the generator-table branch of ed_mul_sim_plain), ed_mul_dig (= the binary-NAF loop of ed_mul_basic on one digit)",
+    "also class A since the extension: ed_mul_dig (model mulDig with the naf[RLC_DIG + 1] buffer; theorem mul_dig) and the dispatch of "
+    "ed_mul_gen / ed_mul_sim_gen (theorem mul_gen_dispatch: right whenever the routines it calls are); the precomputation tables of "
+    "ed_mul_pre_basic / combs / combd / lwnaf are printed entry by entry (op edtab) and compared with the table models (tabPow2, tabCombs, "
+    "tabCombd, tabOdd) and with the integer multiple each entry must be",
+    "modelled and compared, without a theorem of their own: ed_is_infty (hand-written predicate)",
     "the theorems about scalar multiplication are over the abstract commutative group killed by r, instantiated in the correspondence by the "
     "curve points; that the affine law IS a group law (associativity) is the classical theorem about twisted Edwards curves and is not "
     "re-proved here (Mathlib has no Edwards model); commutativity, neutral element, inverse and closure under the complete law are proved",
@@ -28,12 +36,14 @@ ASSUMPTIONS = [
 ]
 RULE = ("points O, (0,-1), both points of order 4, all four of order 8, G, -G, small and random multiples of G, sums of torsion and subgroup "
         "points, equal/opposite pairs, each presented affine / projective / extended with z in {1, 2, p-1, random}; scalars 0, +-1, 2, r-1, r, "
-        "r+1, multiples of r, negative, longer than r (254..512 bits), sparse/dense/alternating/long zero runs; every add/sub/dbl/neg/mul/"
+        "r+1, multiples of r, negative, longer than r (254..512 bits), sparse/dense/alternating/long zero runs, comb-structured (single bits "
+        "at row / column / half-table boundaries, one half of the columns empty, full row, full column, all ones); ed_mul_sim_lot with 0, 1, "
+        "2, 3, 5, 8, 12 points, zero / negative / unreduced / unevenly long scalars, neutral and repeated points; every add/sub/dbl/neg/mul/"
         "mul_fix/mul_sim variant by name in the three coordinate-system builds; every alias pattern; encodings valid and malformed; "
         "non-trivial = distinct (configuration, line) whose result is neither an error nor the neutral element")
 
 GENERATED = ["ed"]
-EXTRA_THEOREM_MODULES = ["RelicVerif.Lemmas.EdFormulas", "RelicVerif.Lemmas.EdGroup", "RelicVerif.Lemmas.EdMul", "RelicVerif.Lemmas.EdConv"]
+EXTRA_THEOREM_MODULES = ["RelicVerif.Lemmas.EdFormulas", "RelicVerif.Lemmas.EdGroup", "RelicVerif.Lemmas.EdMul", "RelicVerif.Lemmas.EdLot", "RelicVerif.Lemmas.EdConv"]
 
 CONFIGS = ["p255", "p255-extnd", "p255-basic"]
 SYS = {"p255": "projc", "p255-extnd": "extnd", "p255-basic": "basic", "p255-extnd-san": "extnd"}
@@ -49,6 +59,7 @@ class Ed:
         self.p = int(kv["p"], 16); self.a = int(kv["a"], 16); self.d = int(kv["d"], 16)
         self.g = (int(kv["gx"], 16), int(kv["gy"], 16)); self.r = int(kv["r"], 16); self.h = int(kv["h"], 16)
         self.nb = int(kv["nb"]); self.R = 1 << (64 * int(kv["fpdigs"])); self.fpbits = int(kv["fpbits"])
+        self.depth = int(kv.get("depth", 4))          # RLC_DEPTH of the build (rows of the comb tables)
         self.O = (0, 1)
         self.tors = None
 
@@ -301,6 +312,65 @@ def gen_mul(rng, cv, sysname, count, part=None):
         for al in (".p", ".q"):
             out.append("eds %s%s %s %x %s %x" % (v, al, ptok(rng, cv, rng.choice(pool), rp), 1 + rng.below(cv.r - 1),
                                                 ptok(rng, cv, rng.choice(pool), rp), 1 + rng.below(cv.r - 1)))
+    # comb-structured scalars for the double-table comb (ed_mul_fix_combd; fix_ / gen use it in the p255-basic build) and the single
+    # comb: RLC_DEPTH rows (as the library reports), dd = ceil(bits(r)/depth) columns, e = ceil(dd/2): single bits at the row / column / half boundaries,
+    # full and empty halves (second-table columns only, first-table columns only), one full column, one full row, all ones
+    depth = cv.depth
+    dd = (cv.r.bit_length() + depth - 1) // depth
+    e = (dd + 1) // 2
+    bit = lambda i, j: 1 << (i + j * dd)
+    comb = []
+    for i in (0, 1, e - 1, e, e + 1, dd - 1):
+        for j in (0, 1, depth - 1):
+            if i + j * dd < cv.r.bit_length() - 1:
+                comb.append(bit(i, j))
+    comb.append(sum(bit(i, j) for i in range(e) for j in range(depth - 1)))                 # only the first table is used
+    comb.append(sum(bit(i, j) for i in range(e, dd) for j in range(depth - 1)))            # only the second table is used
+    comb.append(sum(bit(e - 1, j) for j in range(depth - 1)) + sum(bit(dd - 1, j) for j in range(depth - 1)))
+    comb.append(sum(bit(i, 0) for i in range(dd)))                                          # one full row
+    comb.append(sum(bit(i, depth - 2) for i in range(dd)))
+    comb.append((1 << (cv.r.bit_length() - 1)) - 1)                                         # all ones below the top bit
+    comb.append(1 << (cv.r.bit_length() - 1))                                               # the top bit of the order alone
+    comb.append(cv.r - 1)
+    comb.append((1 << (depth * dd)) - 1)                                                    # all ones over the comb (reduced mod r)
+    comb.append(-comb[rng.below(len(comb))])
+    for ci, kk in enumerate(comb):
+        for v in ("fix_combd", "fix_combs", "fix_", "gen"):
+            if part is not None and v != "fix_combd" and (ci + len(v)) % part[1] != part[0]:
+                continue
+            out.append("edm %s %d %s %s" % (v, rng.below(2), ptok(rng, cv, rng.choice(pool + [cv.g]), ""), hx(kk)))
+    # ed_mul_sim_lot, structured: no point, one point, scalars 0 / +-1 / negative / longer than the order (not reduced) / of very
+    # different lengths (the shared NAF length is the longest + 1), the neutral element and repeated / opposite points among the inputs
+    big = lambda: rng.bits(rng.choice([257, 300, 384])) | 1 << 256
+    P0, P1, P2 = rng.choice(pool), rng.choice(pool), rng.choice(pool)
+    lots = [
+        [],
+        [(P0, 0)], [(P0, 1)], [(P0, -1)], [(cv.O, 5)], [(P0, cv.r)], [(P0, big())], [(P0, -big())],
+        [(P0, 1), (P1, rng.bits(256) % cv.r)], [(P0, rng.bits(256) % cv.r), (P1, 0)], [(P0, 0), (P1, 0)],
+        [(P0, 3), (P0, -3)], [(P0, rng.bits(200)), (cv.neg(P0), rng.bits(252))], [(P0, cv.r - 1), (P1, -(cv.r - 1))],
+        [(P0, -rng.bits(250)), (P1, -rng.bits(64)), (P2, -1)], [(cv.O, rng.bits(252)), (P1, 2), (cv.O, 0)],
+        [(P0, big()), (P1, 1), (P2, -(rng.bits(128)))], [(P0, (1 << 252) - 1), (P1, 1 << 252), (P2, int("01" * 126, 2))],
+        [(rng.choice(pool), scalar(rng, cv.r, c_)) for c_ in range(8)], [(rng.choice(pool), scalar(rng, cv.r, 6 + c_)) for c_ in range(8)],
+        [(rng.choice(pool), rng.choice([1, -1]) * rng.bits(253)) for _ in range(12)],
+    ]
+    for li, lot in enumerate(lots):
+        if not mine(li):
+            continue
+        toks = []
+        for (P, kk) in lot:
+            toks += [ptok(rng, cv, P, rp), hx(kk)]
+        out.append(("edl %d %s" % (len(lot), " ".join(toks))).strip())
+        if len(lot) > 0:
+            out.append("edla %d %d %s" % (rng.below(len(lot)), len(lot), " ".join(toks)))
+    # the precomputation tables themselves (edtab): a change that is compensated between table construction and loop, or that touches only
+    # t[0] / t[2^depth], is invisible in k*P
+    if mine(0) or mine(1):
+        for v in ("basic", "combs", "combd", "lwnaf"):
+            for P in (cv.g, rng.choice(pool)):
+                out.append("edtab %s %s" % (v, ptok(rng, cv, P, "")))
+        out.append("edtab combd %s" % ptok(rng, cv, cv.O, ""))
+    else:
+        out.append("edtab combd %s" % ptok(rng, cv, rng.choice(pool), ""))      # every build sees the double table at least once
     for _ in range(count):
         k = rng.below(100)
         if k < 55:
